@@ -32,7 +32,7 @@ struct Open : public ezc3d::c3d {
     int h2i(const char* v, unsigned int len) { return hex2int(v, len); }
 };
 
-static FILE* out = stdout;
+static thread_local FILE* out = stdout;
 
 // ---- write(2) fault injection (C15): bytes written to any descriptor other than the harness's own
 // output are accepted up to g_budget and refused with ENOSPC beyond it.
@@ -149,7 +149,7 @@ static std::string pointStr(const Point& p) {
     return xhex(p.name()) + " " + hex8(p.x()) + " " + hex8(p.y()) + " " + hex8(p.z()) + " " + hex8(p.residual());
 }
 
-static int dumpMode = 2; // 0 none, 1 shape, 2 full
+static thread_local int dumpMode = 2; // 0 none, 1 shape, 2 full
 
 static void dumpHeader(const ezc3d::Header& h) {
     std::fprintf(out, "H %zu %zu %zu %zu %zu %zu %zu %zu %d %zu %zu %s %d %d %d %d %zu %zu %zu %zu\n",
@@ -230,12 +230,16 @@ template <class T> static void getLine(const std::function<std::string()>& fn) {
     if (r == "ok") std::fprintf(out, "V %s\n", v.c_str()); else std::fprintf(out, "T %s\n", r.c_str() + 6);
 }
 
-int main(int argc, char** argv) {
-    if (argc < 2) { std::fprintf(stderr, "usage: harness <script> [out]\n"); return 2; }
-    std::ifstream in(argv[1]);
-    if (argc > 2) { out = std::fopen(argv[2], "w"); if (!out) return 2; }
-    g_ownfd = fileno(out);
-    signal(SIGXFSZ, SIG_IGN);
+#include <thread>
+#include <random>
+#include <chrono>
+static int g_yield_seed = 0;     // > 0: perturb the schedule with random yields/sleeps between ops (C18)
+
+static int runScript(const char* scriptPath, const char* outPath, int tid) {
+    std::ifstream in(scriptPath);
+    if (outPath) { out = std::fopen(outPath, "w"); if (!out) return 2; }
+    if (tid < 0) g_ownfd = fileno(out);
+    std::mt19937 rng((unsigned)(g_yield_seed * 7919 + tid));
     std::unique_ptr<Open> cur;
     std::map<std::string, Frame> vars;
     std::string line; size_t n = 0;
@@ -245,6 +249,7 @@ int main(int argc, char** argv) {
         std::vector<std::string> t = split(line, ' ');
         const std::string& op = t[0];
         std::fprintf(out, "OP %zu %s\n", n, op.c_str()); std::fflush(out);
+        if (g_yield_seed > 0) { unsigned k = rng() % 8; if (k == 0) std::this_thread::yield(); else if (k == 1) std::this_thread::sleep_for(std::chrono::microseconds(rng() % 300)); }
         std::string res;
         bool mut = true;
         if (op == "dumpmode") { dumpMode = t[1] == "full" ? 2 : t[1] == "shape" ? 1 : 0; continue; }
@@ -364,4 +369,19 @@ int main(int argc, char** argv) {
     std::fprintf(out, "END\n");
     if (out != stdout) std::fclose(out);
     return 0;
+}
+
+int main(int argc, char** argv) {
+    if (argc < 2) { std::fprintf(stderr, "usage: harness <script> [out] | harness --threads <yieldseed> <script> <out> [<script> <out>]...\n"); return 2; }
+    signal(SIGXFSZ, SIG_IGN);
+    if (std::string(argv[1]) == "--threads") {
+        g_yield_seed = std::atoi(argv[2]);
+        std::vector<std::thread> th;
+        std::vector<int> rc((argc - 3) / 2, 0);
+        for (int i = 0; 3 + 2 * i + 1 < argc; ++i)
+            th.emplace_back([&, i]() { rc[i] = runScript(argv[3 + 2 * i], argv[4 + 2 * i], i); });
+        for (size_t i = 0; i < th.size(); ++i) th[i].join();
+        return 0;
+    }
+    return runScript(argv[1], argc > 2 ? argv[2] : nullptr, -1);
 }
